@@ -171,7 +171,7 @@ def run(ctx):
             cov.hit("sequences_ended_by_struct_error")
         if r["disagreement"] is not None or r["violation"] is not None:
             _report(jm, model, os.path.join(tmp, "shrink"), r, out, seen_notes)
-        if len(out["samples"]) < 3 and group != "corpus" and len(r["ops"]) <= 8 and name in ("fit2x+0-destroy", "setci-timer", "delto-2"):
+        if len(out["samples"]) < 3 and group != "corpus" and len(r["ops"]) <= 12 and name in ("fit2x+0-destroy", "setci-timer", "delto-2"):
             out["samples"].append({"name": name, "factory": r["factory"], "ops": r["ops"], "agreed": r["disagreement"] is None,
                                    "list_monitor_ok": r["violation"] is None})
 
